@@ -199,7 +199,7 @@ theorem stepC_good (hs : SimpSound s) (hmem : cfg.maxMem + 32 ≤ p.memLimit) (h
     (hcb : ∀ a prog, codeOf codes a = some prog → ∀ b ∈ prog, b < 256)
     (hob : cfg.balances = true → OracleSound o)
     (hH : ∀ I, H I → (cfg.balances = true → BalHyp I cfg w0) ∧ (cfg.sha3 = true → ShaInterp I p cfg))
-    (hch : CreateHyp cfg p S w0) (hoh : cfg.hsto = true → OracleSound o)
+    (hch : CreateHyp cfg p S w0) (hoh : cfg.hsto = true → OracleSound o ∧ cfg.sha3 = true)
     (hhs : ∀ I, I.Std → H I → ∀ cs, VisitedC s o cfg codes cs0 cs → Sat I cs.st.path → HstoOK I p s cfg cs)
     {cs : CState} (hv : VisitedC s o cfg codes cs0 cs)
     (hg : GoodC p S w0 cs0 H cs) :
@@ -227,7 +227,7 @@ theorem exploreC_sound (hs : SimpSound s) (hmem : cfg.maxMem + 32 ≤ p.memLimit
     (hcb : ∀ a prog, codeOf codes a = some prog → ∀ b ∈ prog, b < 256)
     (hob : cfg.balances = true → OracleSound o)
     (hH : ∀ I, H I → (cfg.balances = true → BalHyp I cfg w0) ∧ (cfg.sha3 = true → ShaInterp I p cfg))
-    (hch : CreateHyp cfg p S w0) (hoh : cfg.hsto = true → OracleSound o)
+    (hch : CreateHyp cfg p S w0) (hoh : cfg.hsto = true → OracleSound o ∧ cfg.sha3 = true)
     (hhs : ∀ I, I.Std → H I → ∀ cs, VisitedC s o cfg codes cs0 cs → Sat I cs.st.path → HstoOK I p s cfg cs)
     (fuel : Nat) : ∀ (steps : Nat) (wl : List CState) (acc : ResultC),
     (∀ cs ∈ wl, GoodC p S w0 cs0 H cs ∧ VisitedC s o cfg codes cs0 cs) →
@@ -268,13 +268,14 @@ def FlaggedC (res : ResultC) : Prop :=
   res.boundedLoops ≠ [] ∨ res.depthCut = true ∨ res.outOfFuel = true
 
 /-- the concrete result `r` of the valuation `I` is accounted for by the run's result -/
-def CoveredC (I : Interp) (S : Nat → Prop) (w0 : Evm.World) (r : Evm.World × Evm.Halt) (res : ResultC) : Prop :=
-  (∃ ce ∈ res.ends, EndCoversC I S w0 r ce) ∨ FlaggedC res
+def CoveredC (I : Interp) (p : Evm.Params) (S : Nat → Prop) (w0 : Evm.World) (r : Evm.World × Evm.Halt)
+    (res : ResultC) : Prop :=
+  (∃ ce ∈ res.ends, EndCoversC I p S w0 r ce) ∨ FlaggedC res
 
-theorem CoveredC.mono {I : Interp} {S : Nat → Prop} {w0 : Evm.World} {r : Evm.World × Evm.Halt} {a b : ResultC}
+theorem CoveredC.mono {I : Interp} {p : Evm.Params} {S : Nat → Prop} {w0 : Evm.World} {r : Evm.World × Evm.Halt} {a b : ResultC}
     (he : ∀ e ∈ a.ends, e ∈ b.ends)
     (hb : a.boundedLoops ≠ [] → b.boundedLoops ≠ []) (hd : a.depthCut = true → b.depthCut = true)
-    (hf : a.outOfFuel = true → b.outOfFuel = true) (hc : CoveredC I S w0 r a) : CoveredC I S w0 r b := by
+    (hf : a.outOfFuel = true → b.outOfFuel = true) (hc : CoveredC I p S w0 r a) : CoveredC I p S w0 r b := by
   rcases hc with ⟨e, hm, hcov⟩ | hb' | hd' | hf'
   · exact Or.inl ⟨e, he e hm, hcov⟩
   · exact Or.inr (Or.inl (hb hb'))
@@ -287,7 +288,7 @@ variable {s : Simp} {o : Oracle} {cfg : Cfg} {codes : List (Nat × List Nat)}
 
 theorem exploreC_mono {I : Interp} {r : Evm.World × Evm.Halt} (fuel : Nat) :
     ∀ (steps : Nat) (wl : List CState) (acc : ResultC),
-    CoveredC I S w0 r acc → CoveredC I S w0 r (exploreC s o cfg codes fuel steps wl acc) := by
+    CoveredC I p S w0 r acc → CoveredC I p S w0 r (exploreC s o cfg codes fuel steps wl acc) := by
   induction fuel with
   | zero =>
     intro steps wl acc hc
@@ -314,12 +315,15 @@ theorem exploreC_complete (hs : SimpSound s) (ho : OracleSound o) (hmem : cfg.ma
     (hS : ∀ a prog, codeOf codes a = some prog → S a)
     (hcb : ∀ a prog, codeOf codes a = some prog → ∀ b ∈ prog, b < 256)
     {I : Interp} (hI : I.Std) (hb : cfg.balances = true → BalHyp I cfg w0)
-    (hsi : cfg.sha3 = true → ShaInterp I p cfg) (hch : CreateHyp cfg p S w0) (hnh : cfg.hsto = false) {cs0 : CState}
-    (hsok : ∀ cs, VisitedC s o cfg codes cs0 cs → ShaOK I s cfg cs) {r : Evm.World × Evm.Halt} (fuel : Nat) :
+    (hsi : cfg.sha3 = true → ShaInterp I p cfg) (hch : CreateHyp cfg p S w0)
+    (hoh : cfg.hsto = true → cfg.sha3 = true ∧ HEmptyZero I) {cs0 : CState}
+    (hsok : ∀ cs, VisitedC s o cfg codes cs0 cs → ShaOK I s cfg cs)
+    (hhs : ∀ cs, VisitedC s o cfg codes cs0 cs → Sat I cs.st.path → HstoOK I p s cfg cs)
+    {r : Evm.World × Evm.Halt} (fuel : Nat) :
     ∀ (steps : Nat) (wl : List CState) (acc : ResultC), (∀ cs ∈ wl, VisitedC s o cfg codes cs0 cs) →
     (∃ cs ∈ wl, Sat I cs.st.path ∧ ∃ w f kcs, RelC I p S w0 cs w f kcs ∧ RunStack p w f kcs r ∧
         BBAll (cfg.balances = true) w kcs) →
-    CoveredC I S w0 r (exploreC s o cfg codes fuel steps wl acc) := by
+    CoveredC I p S w0 r (exploreC s o cfg codes fuel steps wl acc) := by
   induction fuel with
   | zero =>
     intro steps wl acc _ ⟨cs, hm, _⟩
@@ -341,7 +345,8 @@ theorem exploreC_complete (hs : SimpSound s) (ho : OracleSound o) (hmem : cfg.ma
           · exact hvis x (List.mem_cons_of_mem _ hx)
         rcases List.mem_cons.1 hm with rfl | hm
         · rcases stepC_complete (o := o) hs ho hI hmem hdep hcodes hS hcb hb hsi
-              (hsok _ (hvis _ (List.mem_cons_self ..))) hch hnh hrel hsat hrun hbb with
+              (hsok _ (hvis _ (List.mem_cons_self ..))) hch hoh (hhs _ (hvis _ (List.mem_cons_self ..)) hsat) hrel hsat
+              hrun hbb with
             ⟨cs', hm', hsat', w', f', kcs', hrel', hrun', hbb'⟩ | ⟨ce, hme, hcov⟩ | hb
           · exact ih _ _ _ hvis' ⟨cs', List.mem_append_left _ (List.mem_reverse.2 hm'), hsat', w', f', kcs', hrel',
               hrun', hbb'⟩
@@ -373,7 +378,7 @@ theorem relC_init {S : Nat → Prop} {f0 : Evm.Frame} (hR0 : R I env ((codeOf co
     (hz : ∀ a, S a → ∀ slot, Evm.lookupD w0.storage (a, slot) = 0 ∧
       Evm.lookupD w0.transient (a, slot) = 0) :
     RelC I p S w0 (initC env codes this) w0 f0 [] := by
-  refine ⟨hR0, hthis, hS0, hd0, ?_, ?_, ChainWF.nil, CrOK.nil, fun a ha slot _ => (hz a ha slot).1, List.Forall₂.nil⟩
+  refine ⟨hR0, hthis, hS0, hd0, ?_, ?_, ChainWF.nil, CrOK.nil, ⟨fun c hc => absurd hc List.not_mem_nil, fun a ha slot _ => (hz a ha slot).1⟩, List.Forall₂.nil⟩
   · show ∀ b ∈ (codeOf codes this).getD [], b < 256
     cases hc : codeOf codes this with
     | none => intro b hb; simp at hb
